@@ -22,6 +22,7 @@ type vfGen struct {
 	budget  int  // how many more non-default variants this path may take
 	plainWS bool // gaps are single spaces (used by harnesses that vary gaps themselves)
 	gaps    []int // byte offsets of inter-token gaps (offset of the gap's first byte)
+	emptyName bool // an empty quoted identifier "" was written somewhere
 	plainKW bool // keywords in upper case
 }
 
@@ -160,7 +161,11 @@ func (g *vfGen) ident() string {
 			g.b = append(g.b, bs...)
 			return s
 		case 1: // quoted, symbolic content with escapes
-			return g.quoted('"', vfChoice(g.maxName()+1))
+			n := vfChoice(g.maxName() + 1)
+			if n == 0 {
+				g.emptyName = true
+			}
+			return g.quoted('"', n)
 		case 2: // a keyword used as a name must be quoted
 			kws := []string{"select", "FROM", "Default", "time", "true"}
 			k := kws[vfChoice(len(kws))]
